@@ -875,3 +875,47 @@ lib.VALUE_METHODS.update({
 lib.OBJ_METHODS["rng"].update({"integers": rng_integers, "random": rng_random})
 lib.BUILTIN_FUNCS.update({"sum": b_sum, "all": b_all(False), "any": b_all(True),
                           "sorted": lambda I, st, a, k, n: np_sort(I, st, a, k, n)})
+
+
+# ---- scipy.stats.betabinom (frozen distribution): only its support matters ------------------------------------------
+def betabinom_ctor(I, st, args, kw, node):
+    used("scipy.stats.betabinom(n, a, b).rvs(size=k): k integers in 0..n drawn from the generator assigned to "
+         ".random_state (which advances); needs n >= 0, a > 0, b > 0")
+    names = ["n", "a", "b"]
+    vals = dict(zip(names, args))
+    vals.update({k_: v for k_, v in kw.items() if k_ in names})
+    if set(vals) != set(names) or set(kw) - set(names):
+        raise Unsupported("betabinom(...) with other than the parameters n, a, b")
+    I.safety(st, to_z3(vals["n"]) >= 0, "betabinom-n-nonnegative", node)
+    I.safety(st, z3.And(lib.to_real(to_z3(vals["a"])) > 0, lib.to_real(to_z3(vals["b"])) > 0), "betabinom-shape-positive", node)
+    o = lib.Opaque(z3.Const(fresh_name("betabinom"), lib.ObjS), "BetaBinomRV")
+    o._n = vals["n"]          # type: ignore[attr-defined]
+    o._rng = None             # type: ignore[attr-defined]
+    return o
+
+
+def betabinom_set_random_state(I, st, base, val):
+    if not (isinstance(val, lib.Obj) and val.cls == "rng"):
+        raise Unsupported("betabinom.random_state = <not a Generator>")
+    base._rng = val
+
+
+def betabinom_rvs(I, st, recv, args, kw, node):
+    size = kw.get("size") if "size" in kw else (args[0] if args else None)
+    if set(kw) - {"size"} or len(args) > 1 or size is None or not lib.is_num(size):
+        raise Unsupported("betabinom.rvs with other than an integer size")
+    if recv._rng is None:
+        raise Unsupported("betabinom.rvs drawing from the GLOBAL numpy random state")
+    rng = recv._rng
+    s0 = st.heap[rng.oid]["state"]
+    st.heap[rng.oid]["state"] = lib._RNG_NEXT(s0, z3.IntVal(5))
+    f = z3.Function(fresh_name("bbrvs"), z3.IntSort(), z3.IntSort())
+    t = z3.Int(fresh_name("t"))
+    lib._ext(st, z3.ForAll([t], z3.And(f(t) >= 0, f(t) <= to_z3(recv._n))), [f])
+    return st.alloc(Arr((size,), lambda i: f(to_z3(i)), kind="ndarray", etype="int"), "arr")
+
+
+lib.LIB["betabinom"] = betabinom_ctor
+lib.OPAQUE_METHODS.setdefault("BetaBinomRV", {})["rvs"] = betabinom_rvs
+lib.OPAQUE_SETATTR = dict(getattr(lib, "OPAQUE_SETATTR", {}))
+lib.OPAQUE_SETATTR.setdefault("BetaBinomRV", {})["random_state"] = betabinom_set_random_state
